@@ -270,7 +270,8 @@ class Importer:
         node = self._tree.add_node(self._tree_stage, parent, token, self.get_last_spine_operator(parent), parent.last_signature_nodes, parent.header_node)
 
         if column_content == '*-':
-            if node.last_spine_operator_node is not None:
+            if (node.last_spine_operator_node is not None
+                    and node.last_spine_operator_node.token.cancelled_at_stage is None):  # keep the first cancellation
                 node.last_spine_operator_node.token.cancelled_at_stage = self._tree_stage
             pass # it's terminated, no continuation
         elif column_content == "*+" or column_content == "*^":
